@@ -1,6 +1,7 @@
 """C03 — names unique per parent; name / id / index lookups, counts and order agree."""
 from vlib.tok import s as S
-from checks.storegen import World, NAMES, PLAIN, BLOCK_KINDS, with_hdump
+from checks.storegen import World, NAMES, PLAIN, BLOCK_KINDS, REL_OF, with_hdump
+from checks import C04
 ID = 'C03'
 THEOREMS = ['Nix.St.find_by_name', 'Nix.St.find_by_id', 'Nix.St.find_by_id_shadowed', 'Nix.St.count_eq_enumeration_length', 'Nix.St.enumeration_eq_by_index', 'Nix.St.nthChild_isSome_iff', 'Nix.St.blkFind_by_name', 'Nix.St.blkFind_by_name_and_id', 'Nix.St.blkFind_by_id', 'Nix.St.createBlock_appends', 'Nix.St.delete_keeps_order', 'Nix.St.unlinkAll_preserves_container', 'Nix.St.createBlock_preserves_container', 'Nix.St.blocks_container_invariant', 'Nix.St.newFile_blocks_container', 'Nix.St.newFile_wt', 'Nix.St.apply_wt', 'Nix.St.run_wt', 'Nix.St.reachable_wt', 'Nix.St.names_unique_per_parent', 'Nix.St.lookup_by_name_finds_the_link', 'Nix.St.children_are_groups', 'Nix.St.properties_are_datasets', 'Nix.St.link_targets_exist', 'Nix.St.links_conform_to_schema', 'Nix.St.WT.block_containers_hold_groups',
             'Nix.St.apply_idStep', 'Nix.St.apply_idUniq', 'Nix.St.run_idUniq', 'Nix.St.ids_pairwise_distinct', 'Nix.St.findGroupByAttribute_of_idUniq',
@@ -135,6 +136,60 @@ def twin_blocks_case(rng):
     ask()
     return w.lines
 
+def empty_containers_case(rng):
+    """holders that never had a reference / a source / a member, and entities of OTHER parents: asked by name, id and handle — in the
+    session that made them, after a reopen read-write and after a reopen READ-ONLY (a query must not need to create anything);
+    File- and parent-level queries about entities that live elsewhere in the tree (a section below another section asked of the
+    file, a source below another source asked of the block, an array of another block) answer false / none"""
+    w = World(rng, names=PLAIN)
+    w.open('ow')
+    bs = [w.mk('B', None), w.mk('B', None)]
+    for b in bs:
+        for k in ('A', 'A', 'D', 'T', 'M', 'G', 'O'):
+            w.mk(k, b)
+        o = w.pick('O', parent=b.slot)
+        w.mk('O', o); w.mk('O', w.pick('O', parent=o.slot))
+    s1 = w.mk('S', None); s2 = w.mk('S', s1); w.mk('S', s2); w.mk('S', None)
+    # holders that are asked nothing at all before the read-only session
+    late = set()
+    for b in bs:
+        for k in ('T', 'M', 'G', 'A'):
+            late.add(w.mk(k, b).name + '@' + b.slot)
+    def ask(with_late=False):
+        for b in bs:
+            arrays = w.alive('A'); srcs = w.alive('O')
+            skip = (lambda e: False) if with_late else (lambda e: (e.name + '@' + b.slot) in late)
+            for t in w.alive(['T', 'M'], block=b.slot):
+                if skip(t): continue
+                for a in rng.sample(arrays, min(3, len(arrays))):
+                    w.emit('haslink ref %s %s' % (t.slot, rng.choice(['idof ' + a.slot, 'name ' + S(a.name)])))
+                    w.emit('haslinkh ref %s handle %s foreign' % (t.slot, a.slot))
+                w.emit('countlink ref %s' % t.slot); w.emit('xlinks ref %s' % t.slot)
+            for h in w.alive(['A', 'D', 'T', 'M', 'G'], block=b.slot):
+                if skip(h): continue
+                for o in rng.sample(srcs, min(2, len(srcs))):
+                    w.emit('haslink src %s idof %s' % (h.slot, o.slot))
+                w.emit('countlink src %s' % h.slot)
+            for g in w.alive('G', block=b.slot):
+                if skip(g): continue
+                for e in rng.sample(w.alive(['A', 'D', 'T', 'M']), 4):
+                    w.emit('haslink %s %s %s' % (REL_OF[e.kind], g.slot, rng.choice(['idof ' + e.slot, 'name ' + S(e.name)])))
+                    w.emit('haslinkh %s %s handle %s foreign' % (REL_OF[e.kind], g.slot, e.slot))
+        # entities asked of a parent they do not belong to
+        for e in w.alive(['S', 'O', 'A', 'D', 'T', 'M', 'G']):
+            pars = [p for p in w.alive('B' if e.kind != 'S' else 'S') if p.slot != e.parent and p.slot != e.slot] + ([None] if e.kind == 'S' and e.parent != '$F' else [])
+            if e.kind == 'O': pars += [p for p in w.alive('O') if p.slot != e.parent and p.slot != e.slot]
+            for p in rng.sample(pars, min(2, len(pars))):
+                ps = p.slot if p else '$F'
+                w.emit('has %s %s idof %s' % (e.kind, ps, e.slot))
+                w.emit('has %s %s handle %s' % (e.kind, ps, e.slot))
+                w.emit('get $q %s %s idof %s' % (e.kind, ps, e.slot))
+    ask()
+    w.reopen('rw'); ask()
+    w.reopen('ro'); ask(with_late=True)
+    w.emit('dump')
+    return w.lines
+
 def cases(tier, seed, rng):
     from vlib.runner import Case
     n = 60 if tier == 'quick' else 1500
@@ -142,6 +197,8 @@ def cases(tier, seed, rng):
     out += [Case(source_name_case(rng), 'gen:pattern-like-source-names') for _ in range(4 if tier == 'quick' else 60)]
     out += [Case(feature_case(rng), 'gen:features-by-data-array') for _ in range(8 if tier == 'quick' else 150)]
     out += [Case(prefix_names_case(rng), 'gen:prefix-names') for _ in range(4 if tier == 'quick' else 60)]
+    out += [Case(empty_containers_case(rng), 'gen:empty-containers-and-wrong-parents') for _ in range(3 if tier == 'quick' else 40)]
+    out += [Case(C04.source_chain_case(rng), 'gen:source-chain') for _ in range(4 if tier == 'quick' else 60)]
     out += [Case(twin_blocks_case(rng), 'gen:twin-blocks') for _ in range(2 if tier == 'quick' else 30)]
     return out
 
